@@ -621,6 +621,7 @@ func hasNonFinite(v reflect.Value) bool {
 }
 
 type ctx struct {
+	force *forced
 	sum *vh.Summary
 	cv  *vh.Cases
 	id  int
@@ -685,9 +686,19 @@ func coqGopts(o vh.Opts) string {
 	return fmt.Sprintf("(mkgopts %s %s %s 0%%Z false)", b("StructToArray"), b("Canonical"), b("NilCollectionToZeroLength"))
 }
 
+// forced: a fixed (source format, target format, type, value) instead of a drawn one
+type forced struct {
+	F, G string
+	t    reflect.Type
+	v    reflect.Value
+}
+
 func (c *ctx) one(r *vh.Rng, idx int, wantModel bool) {
 	sum := c.sum
 	F := vh.Formats[idx%len(vh.Formats)]
+	if c.force != nil {
+		F = c.force.F
+	}
 	oF := vh.RandEncOpts(r, F)
 	if F == "json" {
 		delete(oF, "StringToRaw") // F01-s2r (known, C01)
@@ -701,6 +712,9 @@ func (c *ctx) one(r *vh.Rng, idx int, wantModel bool) {
 	}
 	to := vh.TypeOpts{MaxDepth: 1 + r.Intn(3)}
 	t := vh.StripOmitEmpty(vh.RandType(r, to, 0))
+	if c.force != nil {
+		t = c.force.t
+	}
 	var ti tinfo
 	classify(t, &ti)
 	n := nopts{signed: r.Chance(1, 3), raw2str: r.Chance(1, 3), prefArr: r.Chance(1, 4), zeroCopy: r.Chance(1, 3), sliceT: "[]interface{}"}
@@ -712,6 +726,10 @@ func (c *ctx) one(r *vh.Rng, idx int, wantModel bool) {
 	// SignedInteger together with an unsigned value >= 2^63 is drawn on purpose: such a value has no int64,
 	// and every format must then refuse the schema-less decode (never hand back a sign-flipped int64)
 	v := vh.RandValue(r, t, vo)
+	if c.force != nil {
+		v = c.force.v
+		n.signed = false
+	}
 	if n.signed && !hasBigUint(v) && r.Chance(1, 6) {
 		forceBigUint(r, v)
 	}
@@ -801,10 +819,14 @@ func (c *ctx) one(r *vh.Rng, idx int, wantModel bool) {
 			// is written without fraction or exponent, with shortest digits: DecodeNaked reads an INTEGER that is
 			// another number than the float
 			sum.FailC("trans", "c15:json:numbers:integral-float-written-as-integer-literal", "the number leaves of the generic tree differ (as exact rationals) from the number leaves of the value", cj)
+			if c.force == nil {
+				return
+			}
+			// forced case: go on - the tree (holding the literal's integer) must still transcode into the float type
+		} else {
+			sum.FailC("trans", "c15:"+F+":numbers", "the number leaves of the generic tree differ (as exact rationals) from the number leaves of the value", cj)
 			return
 		}
-		sum.FailC("trans", "c15:"+F+":numbers", "the number leaves of the generic tree differ (as exact rationals) from the number leaves of the value", cj)
-		return
 	}
 	weF, _ := oF["WriteExt"].(bool)
 	// json writes time / bytes as text, msgpack without WriteExt writes time as a byte string: the string
@@ -833,6 +855,9 @@ func (c *ctx) one(r *vh.Rng, idx int, wantModel bool) {
 	}
 	// step 3/4: re-encode in G, decode into T
 	Gs := []string{F, vh.Formats[r.Intn(len(vh.Formats))]}
+	if c.force != nil {
+		Gs[1] = c.force.G
+	}
 	okAll := true
 	for gi, G := range Gs {
 		if gi == 1 && G == F {
@@ -924,6 +949,34 @@ func (c *ctx) one(r *vh.Rng, idx int, wantModel bool) {
 	}
 }
 
+// bigFloatStream: json writes an integral float in [2^63, 2^64) as an integer literal (F15-1), the tree holds a
+// uint64 >= 2^63; written again in EVERY binary format (and json) it must decode into the float type, in scalar,
+// pointer, slice, map value and struct field positions (F07-7 and its msgpack sibling).
+func bigFloatStream(c *ctx, r *vh.Rng) {
+	f64s := []float64{1e19, 9223372036854775808.0, 1.5e19, 18446744073709549568.0, 9.3e18, 12345678901234567890.0}
+	type S struct {
+		A int
+		F float64
+		G float32
+	}
+	idx := 1 << 20
+	for _, G := range []string{"msgpack", "cbor", "binc", "simple", "json"} {
+		for _, f := range f64s {
+			f32 := float32(f)
+			vals := []interface{}{f, &f, []float64{1, f, -2.5}, map[string]float64{"a": f, "b": 0.5}, S{A: 7, F: f, G: f32}, f32, []float32{f32, 1}, [2]float64{f, f}}
+			for _, x := range vals {
+				v := reflect.New(reflect.TypeOf(x)).Elem()
+				v.Set(reflect.ValueOf(x))
+				c.force = &forced{F: "json", G: G, t: v.Type(), v: v}
+				c.one(r, idx, false)
+				idx++
+				c.sum.Dist["bigfloat.json->"+G]++
+			}
+		}
+	}
+	c.force = nil
+}
+
 func errKind(err error) string {
 	s := err.Error()
 	switch {
@@ -958,6 +1011,7 @@ func main() {
 	for i := 0; i < *nTrans; i++ {
 		c.one(r, i, sum.ModelCases < *nModel)
 	}
+	bigFloatStream(c, r.Fork())
 	c.cv.Close()
 	sum.Print()
 }
